@@ -25,7 +25,7 @@ RULE = ("histories of Namer ops (add/rem/changeAddr/changeName/clear) over names
 ASSUMPTIONS = ["names/addresses are hashable strings; Namer is used single-threaded",
                "the reference model encodes the return values documented in the method docstrings"]
 NSHARDS = {"quick": 8, "thorough": 16}
-REQUIRE = {"returned_map_edits_probed": 5000, "constructor_cases": 500, "constructor_conflicts_rejected": 200, "hook_evaluations": 1000, "rejected_ops": 100, "changing_ops": 100, "raised_ops": 50}
+REQUIRE = {"unhashable_argument_ops": 800, "returned_map_edits_probed": 5000, "constructor_cases": 500, "constructor_conflicts_rejected": 200, "hook_evaluations": 1000, "rejected_ops": 100, "changing_ops": 100, "raised_ops": 50}
 EXHAUSTIVE = {"quick": "all op histories of length <= 3 over the 44-op alphabet",
               "thorough": "all op histories of length <= 4 over the 44-op alphabet"}
 
@@ -70,14 +70,19 @@ def cases(tier, seed, shard, nshards):
             i += 1
     rng = random.Random(f"{seed}:C27:{shard}")
     nrand = (2000 if tier == "quick" else 100000) // nshards
-    N4 = ["a", "ab", "b", "ba", "", None]
-    A4 = ["x", "xy", "y", "/x/y", "", None]
+    N4 = ["a", "ab", "b", "x", "", None]        # names and addresses overlap on purpose ("x", "a")
+    A4 = ["x", "xy", "y", "a", "", None]
     for _ in range(nrand):
         ops = []
         for _ in range(rng.randint(5, 60)):
             k = rng.choice(["add", "add", "rem", "chaddr", "chname", "clear"] if rng.random() < 0.1 else
                            ["add", "add", "rem", "chaddr", "chname"])
             ops.append([k, rng.choice(N4), rng.choice(A4)])
+            if rng.random() < 0.04:
+                # an unhashable address/name (e.g. a [host, port] list decoded from JSON): however it is refused, the
+                # maps must stay as they were
+                ops.append([k if k != "clear" else "add", rng.choice(N4[:4]), ["h", 80]] if rng.random() < 0.7
+                           else [k if k != "clear" else "add", ["n"], rng.choice(A4[:4])])
         init = None
         if rng.random() < 0.3:
             init = [[rng.choice(N4[:4]), rng.choice(A4[:4])] for _ in range(rng.randint(0, 3))]
@@ -243,6 +248,20 @@ def run_case(case, ctx):
     outcomes = []
     changed = rejected = 0
     for op, n, a in case["ops"]:
+        if isinstance(n, list) or isinstance(a, list):
+            ctx.count("unhashable_argument_ops")
+            try:
+                r = {"add": lambda: namer.addNameAddr(n, a), "rem": lambda: namer.remNameAddr(name=n, addr=a),
+                     "chaddr": lambda: namer.changeAddrAtName(name=n, addr=a),
+                     "chname": lambda: namer.changeNameAtAddr(addr=a, name=n)}[op]()
+            except Exception:
+                r = "raised"
+            if r is True or namer.addrByName != model.ab or namer.nameByAddr != model.na:
+                ctx.violation("unhashable-argument-changed-the-maps:" + op,
+                              f"{op}({n!r},{a!r}) -> {r!r}; maps now {namer.addrByName}/{namer.nameByAddr}, "
+                              f"before {model.ab}/{model.na}")
+                return
+            continue
         exp = model.apply(op, n, a)
         try:
             if op == "add":
